@@ -117,6 +117,11 @@ SPEC += [
     "interface\npure elemental real function pe2(x)\nreal, intent(in) :: x\nend function pe2\nrecursive subroutine rs(n)\ninteger n\nend subroutine rs\nend interface",
     "enum, bind(c)\nenumerator :: a1 = 1, a2, a3 = 5\nend enum",
 ]
+# keyword arguments in an order other than the usual one (the unit last, the format first ...)
+EXEC += ["open(file='x', unit=10, status='old')", "open(status='old', file=fn, unit=lun)", "open(iostat=ios, err=10, unit=10, file='x')", "close(status='keep', unit=10)", "close(iostat=ios, unit=u)",
+         "read(fmt=*, unit=5) a", "read(iostat=ios, unit=5, fmt='(i3)') k", "write(fmt=*, unit=6) a", "write(iostat=ios, unit=6, fmt=*) a", "write(advance='no', fmt='(a)', unit=u) s",
+         "inquire(exist=l, file='x')", "inquire(opened=o, unit=10)", "rewind(iostat=ios, unit=10)", "backspace(err=10, unit=10)", "endfile(iostat=ios, unit=10)", "flush(iostat=ios, unit=10)",
+         "wait(iostat=ios, unit=10)", "deallocate(a, b, errmsg=msg, stat=ierr)", "call s(b=1, a=2)", "x = f(b=1, a=2)"]
 IFACE = ["procedure f", "module procedure f", "module procedure f, g", "procedure :: f", "procedure :: f, g", "module procedure :: f", "subroutine s(a)\ninteger a\nend subroutine s",
          "function f(x)\nreal x\nend function f"]
 FORMATS = ["a // a", "i3, /, /, a", "a, :, :, i2", "2/, a", "i2, 3x, /, /, /", "1x, i5", "i5", "f10.3", "a", "3(i2, 1x)", "'text'", "e12.4", "2i5", "a, /, a", "i5.3, es12.4", "l1, g10.3", "tr2, tl1, t10"]
